@@ -1410,6 +1410,33 @@ func (c *Ctx) ruleEmbeddedNil(rule string, reach map[*ssa.Function]bool) {
 				}
 				return true
 			})
+			// the struct tells its kinds apart by a method that returns a field of an enumeration type (Notation()):
+			// the call must be reached only with every kind the struct is ever built with excluded, whatever form the
+			// test has (the condition is evaluated with <receiver>.<method>() bound to each such kind)
+			if tagM, kinds, why := c.victimKinds(v.t); tagM != nil {
+				var missing []string
+				fcf := c.cfgOf(f)
+				for _, k := range kinds {
+					env := &constEnv{c: c}
+					env.leaf = func(g *Fn, e ast.Expr) (constant.Value, bool) {
+						if c2, ok := e.(*ast.CallExpr); ok && g == f {
+							if s2, ok := ast.Unparen(c2.Fun).(*ast.SelectorExpr); ok && s2.Sel.Name == tagM.Name() && accessPath(pk, s2.X) == path && path != "" {
+								return k.Val(), true
+							}
+						}
+						return nil, false
+					}
+					if !fcf.establishedAt(call, func(cond ast.Expr, holds bool) bool { return env.refutes(f, cond, holds) }, nil) {
+						missing = append(missing, k.Name())
+					}
+				}
+				if len(missing) == 0 {
+					r.Ok(rule, key, fmt.Sprintf("reached only when %s() is none of the kinds the struct is built with (%s)", tagM.Name(), why), c.pos(call.Pos()))
+				} else {
+					r.Bad(rule, key, fmt.Sprintf("%s is promoted by %s from an embedded interface that is nil; the call is reached with %s() == %s, a kind %s is built with (%s): the call panics", sel.Sel.Name, vname, tagM.Name(), strings.Join(missing, ", "), vname, why), c.pos(call.Pos()))
+				}
+				return true
+			}
 			if guard != "" {
 				r.Ok(rule, key, "dominated by `if "+guard+" { return }`, a test on a method the struct implements itself", c.pos(call.Pos()))
 			} else {
@@ -1421,6 +1448,175 @@ func (c *Ctx) ruleEmbeddedNil(rule string, reach map[*ssa.Function]bool) {
 	if n == 0 {
 		r.OkTrivial(rule, "calls", "no reachable interface call can dispatch to a promoted method of such a struct (VTA type flow)", "")
 	}
+}
+
+// victimKinds: for a struct with a method that returns one of its fields of an enumeration type, the enumeration
+// constants the field can hold: the values given in composite literals of the struct, followed through the parameters
+// of the constructing function to its call sites in the module, where a constant is taken as it is and a variable
+// stands for every constant that the tests on the way to the call do not exclude.
+func (c *Ctx) victimKinds(t *types.Named) (tag *types.Func, kinds []*types.Const, why string) {
+	st, ok := t.Underlying().(*types.Struct)
+	if !ok {
+		return nil, nil, ""
+	}
+	var fld *types.Var
+	for i := 0; i < t.NumMethods() && tag == nil; i++ {
+		m := t.Method(i)
+		g := c.fnOf(m)
+		if g == nil || g.Decl.Body == nil || len(g.Decl.Body.List) != 1 {
+			continue
+		}
+		ret, ok := g.Decl.Body.List[0].(*ast.ReturnStmt)
+		if !ok || len(ret.Results) != 1 {
+			continue
+		}
+		fs := fieldSel(g.Pkg, ret.Results[0])
+		if fs == nil || len(enumConstants(fs.Type())) == 0 {
+			continue
+		}
+		for j := 0; j < st.NumFields(); j++ {
+			if st.Field(j) == fs.Origin() {
+				tag, fld = m, st.Field(j)
+			}
+		}
+	}
+	if tag == nil {
+		return nil, nil, ""
+	}
+	all := enumConstants(fld.Type())
+	possible := map[*types.Const]bool{}
+	addAll := func() {
+		for _, k := range all {
+			possible[k] = true
+		}
+	}
+	sites := 0
+	for _, f := range c.libFns() {
+		pk := f.Pkg
+		ast.Inspect(f.Decl.Body, func(nd ast.Node) bool {
+			cl, ok := nd.(*ast.CompositeLit)
+			if !ok || namedType(pk.TypesInfo.TypeOf(cl)) != namedType(t) {
+				return true
+			}
+			var val ast.Expr
+			for _, el := range cl.Elts {
+				if kv, ok := el.(*ast.KeyValueExpr); ok {
+					if kid, ok := kv.Key.(*ast.Ident); ok && kid.Name == fld.Name() {
+						val = kv.Value
+					}
+				}
+			}
+			if val == nil {
+				return true // zero value: no enumeration constant
+			}
+			sites++
+			if k := constObj(pk, val); k != nil {
+				possible[k] = true
+				return true
+			}
+			pi := paramIndexOf(f, val)
+			if pi < 0 || paramAssigned(f, val) {
+				addAll()
+				return true
+			}
+			callers, _ := c.callersOf(f)
+			for _, cs := range callers {
+				arg := argFor(cs, pi)
+				if arg == nil {
+					addAll()
+					continue
+				}
+				if k := constObj(cs.g.Pkg, arg); k != nil {
+					possible[k] = true
+					continue
+				}
+				aid := identOf(arg)
+				if aid == nil || cs.g.Pkg.TypesInfo.Uses[aid] == nil {
+					addAll()
+					continue
+				}
+				obj := cs.g.Pkg.TypesInfo.Uses[aid]
+				gcf := c.cfgOf(cs.g)
+				var open []*types.Const
+				for _, k := range all {
+					env := &constEnv{c: c, vars: map[types.Object]constant.Value{obj: k.Val()}}
+					g := cs.g
+					if !gcf.establishedAt(cs.call, func(cond ast.Expr, holds bool) bool { return env.refutes(g, cond, holds) }, nil) {
+						open = append(open, k)
+					}
+				}
+				// a call site where no test restricts the argument tells nothing about it (the restriction lies with
+				// its callers, e.g. a format derived from the notation): only restricted sites contribute
+				if len(open) < len(all) {
+					for _, k := range open {
+						possible[k] = true
+					}
+				}
+			}
+			return true
+		})
+	}
+	// the kinds no other implementer of the struct's interfaces reports: only this struct can stand for them
+	others := map[*types.Const]bool{}
+	determinate := true
+	for _, pk := range c.P.Lib {
+		scope := pk.Types.Scope()
+		for _, n := range scope.Names() {
+			tn, ok := scope.Lookup(n).(*types.TypeName)
+			if !ok || tn.Type() == types.Type(t) {
+				continue
+			}
+			on, ok := tn.Type().(*types.Named)
+			if !ok {
+				continue
+			}
+			if _, isIface := on.Underlying().(*types.Interface); isIface {
+				continue
+			}
+			var m *types.Func
+			for _, recv := range []types.Type{on, types.NewPointer(on)} {
+				if obj, _, _ := types.LookupFieldOrMethod(recv, true, pk.Types, tag.Name()); obj != nil {
+					if mf, ok := obj.(*types.Func); ok && types.Identical(mf.Type().(*types.Signature).Results(), tag.Type().(*types.Signature).Results()) {
+						m = mf
+					}
+				}
+			}
+			if m == nil {
+				continue
+			}
+			g := c.fnOf(m)
+			if g == nil || g.Decl.Body == nil || len(g.Decl.Body.List) != 1 {
+				determinate = false
+				continue
+			}
+			ret, ok := g.Decl.Body.List[0].(*ast.ReturnStmt)
+			if !ok || len(ret.Results) != 1 || constObj(g.Pkg, ret.Results[0]) == nil {
+				determinate = false
+				continue
+			}
+			others[constObj(g.Pkg, ret.Results[0])] = true
+		}
+	}
+	if determinate && len(others) > 0 {
+		for _, k := range all {
+			if !others[k] {
+				possible[k] = true
+			}
+		}
+	}
+	for _, k := range all {
+		if possible[k] {
+			kinds = append(kinds, k)
+		}
+	}
+	if len(kinds) == 0 {
+		return nil, nil, ""
+	}
+	var names []string
+	for _, k := range kinds {
+		names = append(names, k.Name())
+	}
+	return tag, kinds, fmt.Sprintf("%d construction site(s) in the module: %s", sites, strings.Join(names, ", "))
 }
 
 // ---------- GetValue results ----------
